@@ -43,6 +43,7 @@ type Filter struct {
 	tubeOffset     int
 	selfAlign      bool
 	complement     bool
+	lastEnd        int
 }
 
 // Return a new Filter using ki as the target, and filter parameters in params.
@@ -87,6 +88,7 @@ func (f *Filter) Filter(query *linear.Seq, selfAlign, complement bool, morass *m
 
 	// Ticker tracks cycling of circular list of active tubes.
 	ticker := tubeWidth
+	f.lastEnd = -1
 
 	var err error
 	err = f.ki.ForEachKmerOf(query, 0, query.Len(), func(ki *kmerindex.Index, position, kmer int) {
@@ -110,18 +112,19 @@ func (f *Filter) Filter(query *linear.Seq, selfAlign, complement bool, morass *m
 		return err
 	}
 
+	// Tubes up to lastEnd have been retired by the ticker.
+	lastEnd := f.lastEnd
 	err = f.tubeEnd(query.Len() - 1)
 	if err != nil {
 		return err
 	}
 
-	diagFrom := f.diagIndex(f.target.Len()-1, query.Len()-1) - tubeWidth
 	diagTo := f.diagIndex(0, query.Len()-1) + tubeWidth
 
-	tubeFrom := f.tubeIndex(diagFrom)
-	if tubeFrom < 0 {
-		tubeFrom = 0
-	}
+	// Flush every tube that the ticker has not retired. Tubes that have
+	// been retired must not be flushed again since their slots in the
+	// circular list may be in use by later tubes.
+	tubeFrom := lastEnd + 1
 
 	tubeTo := f.tubeIndex(diagTo)
 
@@ -230,9 +233,10 @@ func (f *Filter) hitTube(tubeIndex, q int) error {
 // Called when end of a tube is reached
 // A point in the tube -- the point with maximal q -- is (Tlen-1,q-1).
 func (f *Filter) tubeEnd(q int) error {
-	diagIndex := f.diagIndex(f.target.Len()-1, q-1)
+	diagIndex := f.diagIndex(f.target.Len()-1, q-1) - f.maxError
 	tubeIndex := f.tubeIndex(diagIndex)
 	tube := &f.tubes[tubeIndex%cap(f.tubes)]
+	f.lastEnd = tubeIndex
 
 	if tube.Count >= f.minKmersPerHit {
 		err := f.addHit(tubeIndex, tube.QLo, tube.QHi)
